@@ -344,6 +344,9 @@ impl Gen {
         if admin {
             cands.push((3, Op::UpdateData { g, variant: (self.sched.below(3)) as u8, arg: self.sched.below(1000) as u32 }));
             cands.push((1, Op::UpdateData { g, variant: 5 + self.sched.below(2) as u8, arg: 0 }));
+            if self.media {
+                cands.push((4, Op::SetGroupImage { g, seed: self.sched.next() as u32, format: if self.sched.chance(1, 3) { 1 } else { 2 } }));
+            }
             if self.oversize_data {
                 // group data larger than the storage layer accepts (name > 255 bytes, description > 2000)
                 cands.push((1, Op::UpdateData { g, variant: 7 + self.sched.below(2) as u8, arg: self.sched.below(1000) as u32 }));
